@@ -19,7 +19,8 @@
 (*    w, h   : window / hop                         (spec),                 *)
 (*    target : target samplerate                    (resamp),               *)
 (*    pre    : rate of a preliminary resample of the same source (0: none), *)
-(*    hist, N2, base2 : history of the loads, see FileRow]                  *)
+(*    hist, N2, base2 : history of the loads, see FileRow,                  *)
+(*    decl   : samplerate declared on a hand-built Recording (0: from_file)]*)
 (***************************************************************************)
 EXTENDS Lattice
 
@@ -27,7 +28,10 @@ Pow2Set == {1, 2, 4, 8, 16, 32, 64, 128, 256, 512, 1024, 2048, 4096, 8192, 16384
             65536, 131072, 262144, 524288, 1048576}
 Pow2(x) == x \in Pow2Set
 
-Sr(c)      == (c.fr * c.te[1]) \div c.te[2]
+\* the recording's samplerate: what Recording.from_file derives from the header (c.decl = 0), or the value declared on a
+\* Recording built by hand (c.decl > 0), which need not equal header rate x time expansion (44100 Hz x 8 stored with a
+\* 5512 Hz header).  Every clause speaks about this rate, never about the header's.
+Sr(c)      == IF c.decl > 0 THEN c.decl ELSE (c.fr * c.te[1]) \div c.te[2]
 ExactIn(c) == Pow2(c.tden)     \* the times passed are dyadic: start*sr and (end-start)*sr are exact in doubles
 ExactCo(c) == Pow2(Sr(c))      \* sample instants k/sr are exact doubles
 Exact(c)   == ExactIn(c) /\ ExactCo(c)
